@@ -2141,8 +2141,33 @@ type (
 	TagDetails struct {
 		Matches, Uncertain bitmask.LongBitmask
 		Conditions         ConditionsSet
+		// the reference time the Conditions were parsed with (absolute times are stored relative to it)
+		ReferenceTime time.Time
 	}
 )
+
+// WithReferenceTime returns the tag's conditions for a search that uses another reference time than the one the
+// tag's definition was parsed with: a copy in which the absolute times are relative to the new reference time.
+func (td TagDetails) WithReferenceTime(referenceTime time.Time) TagDetails {
+	delta := referenceTime.Sub(td.ReferenceTime)
+	if td.ReferenceTime.IsZero() || delta == 0 {
+		return td
+	}
+	cs := make(ConditionsSet, len(td.Conditions))
+	for i, ccs := range td.Conditions {
+		cs[i] = append(Conditions(nil), ccs...)
+		for j, cc := range cs[i] {
+			if c, ok := cc.(*TimeCondition); ok && c.ReferenceTimeFactor != 0 {
+				tc := *c
+				tc.Duration += delta * time.Duration(c.ReferenceTimeFactor)
+				cs[i][j] = &tc
+			}
+		}
+	}
+	td.Conditions = cs
+	td.ReferenceTime = referenceTime
+	return td
+}
 
 func (cs Conditions) inlineTagFilter(tags map[string]TagDetails) ConditionsSet {
 	const (
